@@ -2,8 +2,14 @@ import Mathlib.Tactic.Linarith
 import Mathlib.Algebra.Order.Field.Rat
 import Mathlib.Algebra.Order.AbsoluteValue.Basic
 import Mathlib.Tactic.NormNum
+import Mathlib.Data.Rat.Floor
+import Mathlib.Algebra.Order.Floor.Ring
+import Mathlib.Tactic.FieldSimp
+import Mathlib.Tactic.Positivity
 import Pun.Model.Query
+import Pun.Props.C08
 import Pun.Gen.GridGen
+import Pun.Gen.LevelsGen
 /-!
 # C18 — p-box queries match the bounds
 
@@ -22,7 +28,7 @@ About `Pun.Query.*` / `Pun.Grid.findNearest`, the functions the driver executes;
 set_option linter.unusedSimpArgs false
 set_option linter.unusedVariables false
 namespace Pun.Props.C18
-open Pun Pun.Grid Pun.Dss Pun.Query
+open Pun Pun.Grid Pun.Dss Pun.Query Pun.Props
 
 theorem absR_eq (x : ℚ) : absR x = |x| := by
   unfold absR
@@ -353,18 +359,362 @@ theorem cdf_bracket (b : List ℚ) (x : ℚ) (last : Nat) (hlast : last + 1 = b.
   · exact s1 (countLE b x - 1) _ (by omega) (by simp)
   · exact s2 _ (by simp)
 
-/-- ★ (stated; not proved in Lean) condensation to fewer steps contains the original p-box.  With the `m-1`
-outer intervals `[left at ℓ_j, right at ℓ_{j+1}]` stacked with equal masses, containment needs, beyond
-`stacking_geninv` (C08) and `nearest_monotone`, the numeric fact that every grid level in the `j`-th band of
-`1/(m-1)` lies between the nearest-grid images of the linspace levels `ℓ_j` and `ℓ_{j+1}`; this is a statement
-about the binary64 tables `np.linspace(0.001, 0.999, m)`, `m = 2..200`, checked on every run by the oracle. -/
-def CondensationContainsStatement : Prop :=
-  ∀ (P : PB) (lv : List ℚ) (C : PB), condensation Gen.pValues P lv = .ok C →
-    P.left.Pairwise (· ≤ ·) → P.right.Pairwise (· ≤ ·) → allLE P.left P.right = true →
-    P.left.length = Gen.steps → P.right.length = Gen.steps →
-    (∃ m, 2 ≤ m ∧ m ≤ Gen.steps ∧ lv.length = m ∧
-      ∀ (j : Nat) (p : ℚ), lv[j]? = some p → |p - (Gen.pLo + (Gen.pHi - Gen.pLo) * j / (m - 1 : ℚ))| ≤ 1 / 10 ^ 12) →
-    allLE C.left P.left = true ∧ allLE P.right C.right = true
+/-! ## condensation contains the original p-box -/
+
+theorem cutRaw_spec (g : List ℚ) (P : PB) (x : ℚ) (cx : Ivl) (hx : cutRaw g P x = .ok cx) :
+    ∃ k, findNearest g x = some k ∧ P.left[k]? = some cx.1 ∧ P.right[k]? = some cx.2 := by
+  unfold cutRaw nearestE getE at hx
+  cases hk : findNearest g x with
+  | none => simp [hk, bind, Except.bind] at hx
+  | some k =>
+    cases hl : P.left[k]? with
+    | none => simp [hk, hl, bind, Except.bind] at hx
+    | some l' =>
+      cases hr : P.right[k]? with
+      | none => simp [hk, hl, hr, bind, Except.bind] at hx
+      | some r' =>
+        simp only [hk, hl, hr, bind, Except.bind, pure, Except.pure, Except.ok.injEq] at hx
+        subst hx
+        exact ⟨k, rfl, hl, hr⟩
+
+theorem mapE_spec (f : ℚ → Except Err Ivl) (l : List ℚ) (cs : List Ivl) (h : mapE f l = .ok cs) :
+    cs.length = l.length ∧ ∀ (j : Nat) (a : ℚ), l[j]? = some a → ∃ c, cs[j]? = some c ∧ f a = .ok c := by
+  induction l generalizing cs with
+  | nil => simp only [mapE, Except.ok.injEq] at h; subst h; simp
+  | cons x r ih =>
+    simp only [mapE] at h
+    cases hf : f x with
+    | error e => simp [hf] at h
+    | ok a =>
+      cases hm : mapE f r with
+      | error e => simp [hf, hm] at h
+      | ok l' =>
+        simp only [hf, hm, Except.ok.injEq] at h
+        subst h
+        obtain ⟨hlen, hspec⟩ := ih l' hm
+        refine ⟨by simp [hlen], ?_⟩
+        intro j b hb
+        cases j with
+        | zero => simp at hb; subst hb; exact ⟨a, by simp, hf⟩
+        | succ j => simp only [List.getElem?_cons_succ] at hb ⊢; exact hspec j b hb
+
+theorem alphaCutArr_spec (g : List ℚ) (P : PB) (lv : List ℚ) (cs : List Ivl) (h : alphaCutArr g P lv = .ok cs) :
+    cs.length = lv.length ∧ ∀ (j : Nat) (a : ℚ), lv[j]? = some a → ∃ c, cs[j]? = some c ∧ cutRaw g P a = .ok c := by
+  unfold alphaCutArr at h
+  cases hm : mapE (cutRaw g P) lv with
+  | error e => simp [hm, bind, Except.bind] at h
+  | ok cs' =>
+    simp only [hm, bind, Except.bind, pure, Except.pure] at h
+    split at h
+    · simp only [Except.ok.injEq] at h; subst h; exact mapE_spec _ _ _ hm
+    · simp at h
+
+/-- the `j`-th outer interval is `[left at level j, right at level j+1]` -/
+theorem outer_spec (g : List ℚ) (P : PB) (lv : List ℚ) (o : List Ivl) (M : Nat) (hlen : lv.length = M + 1)
+    (h : outerDiscretisation g P lv = .ok o) :
+    o.length = M ∧ ∀ (j : Nat) (a b : ℚ), lv[j]? = some a → lv[j + 1]? = some b →
+      ∃ c0 c1, cutRaw g P a = .ok c0 ∧ cutRaw g P b = .ok c1 ∧ o[j]? = some (c0.1, c1.2) := by
+  obtain ⟨ls, rs, h1, h2, rfl⟩ := outer_pairs g P lv o h
+  obtain ⟨l1, s1⟩ := alphaCutArr_spec g P _ ls h1
+  obtain ⟨l2, s2⟩ := alphaCutArr_spec g P _ rs h2
+  refine ⟨by simp [l1, l2, hlen], ?_⟩
+  intro j a b ha hb
+  have hj : j + 1 < lv.length := (List.getElem?_eq_some_iff.mp hb).1
+  obtain ⟨c0, hc0, e0⟩ := s1 j a (by rw [List.getElem?_dropLast]; simp [ha]; omega)
+  obtain ⟨c1, hc1, e1⟩ := s2 j b (by simpa using hb)
+  refine ⟨c0, c1, e0, e1, ?_⟩
+  rw [List.getElem?_zip_eq_some]
+  simp [hc0, hc1]
+
+theorem pairwise_of_get (l : List ℚ)
+    (h : ∀ (i j : Nat) (a b : ℚ), i ≤ j → l[i]? = some a → l[j]? = some b → a ≤ b) : l.Pairwise (· ≤ ·) := by
+  induction l with
+  | nil => simp
+  | cons x r ih =>
+    rw [List.pairwise_cons]
+    refine ⟨?_, ih (fun i j a b hij ha hb => h (i + 1) (j + 1) a b (by omega) (by simpa using ha) (by simpa using hb))⟩
+    intro y hy
+    obtain ⟨j, hj⟩ := List.mem_iff_getElem?.mp hy
+    exact h 0 (j + 1) x y (by omega) (by simp) (by simpa using hj)
+
+/-- adjacent grid levels are at least `δ` apart -/
+def GridGap (g : List ℚ) (δ : ℚ) : Prop :=
+  ∀ (i : Nat) (a b : ℚ), g[i]? = some a → g[i + 1]? = some b → a + δ ≤ b
+
+theorem gap_far (g : List ℚ) (δ : ℚ) (hδ : 0 ≤ δ) (hgap : GridGap g δ) :
+    ∀ (d i : Nat) (a b : ℚ), g[i]? = some a → g[i + 1 + d]? = some b → a + δ ≤ b := by
+  intro d
+  induction d with
+  | zero => intro i a b ha hb; exact hgap i a b ha hb
+  | succ d ih =>
+    intro i a b ha hb
+    have hlt : i + 1 + d < g.length := by
+      have := (List.getElem?_eq_some_iff.mp hb).1; omega
+    have h1 := ih i a g[i + 1 + d] ha (by simp [hlt])
+    have h2 := hgap (i + 1 + d) g[i + 1 + d] b (by simp [hlt]) (by rw [← hb]; congr 1)
+    linarith
+
+/-- a level at most `η` above the grid level `g[i]` (with `2η < δ`) has its nearest grid index `≤ i` -/
+theorem nearest_le (g : List ℚ) (δ η : ℚ) (hδ : 0 ≤ δ) (hgap : GridGap g δ) (hη0 : 0 ≤ η) (hη : 2 * η < δ)
+    (i k : Nat) (p x : ℚ) (hp : g[i]? = some p) (hk : findNearest g x = some k) (hx : x ≤ p + η) : k ≤ i := by
+  by_contra hc
+  obtain ⟨q, hq, _, hfirst⟩ := nearest_minimises g x k hk
+  have hik : i < k := not_le.mp hc
+  have hfar : p + δ ≤ q := by
+    have : k = i + 1 + (k - i - 1) := by omega
+    rw [this] at hq
+    exact gap_far g δ hδ hgap _ i p q hp hq
+  have h1 := hfirst i p hik hp
+  rcases abs_cases (q - x) with ⟨e1, _⟩ | ⟨e1, _⟩ <;> rcases abs_cases (p - x) with ⟨e2, _⟩ | ⟨e2, _⟩ <;>
+    rw [e1, e2] at h1 <;> linarith
+
+/-- a level at most `η` below the grid level `g[i]` has its nearest grid index `≥ i` -/
+theorem nearest_ge (g : List ℚ) (δ η : ℚ) (hδ : 0 ≤ δ) (hgap : GridGap g δ) (hη0 : 0 ≤ η) (hη : 2 * η < δ)
+    (i k : Nat) (p x : ℚ) (hp : g[i]? = some p) (hk : findNearest g x = some k) (hx : p - η ≤ x) : i ≤ k := by
+  by_contra hc
+  obtain ⟨q, hq, hmin, _⟩ := nearest_minimises g x k hk
+  have hki : k < i := not_le.mp hc
+  have hfar : q + δ ≤ p := by
+    have : i = k + 1 + (i - k - 1) := by omega
+    rw [this] at hp
+    exact gap_far g δ hδ hgap _ k q p hq hp
+  have h1 := hmin i p hp
+  rcases abs_cases (q - x) with ⟨e1, _⟩ | ⟨e1, _⟩ <;> rcases abs_cases (p - x) with ⟨e2, _⟩ | ⟨e2, _⟩ <;>
+    rw [e1, e2] at h1 <;> linarith
+
+/-- every probability level in `(0,1]` lies in exactly one of `M` equal bands -/
+theorem band_exists (p : ℚ) (M : Nat) (hM : 0 < M) (h0 : 0 < p) (h1 : p ≤ 1) :
+    ∃ j, j < M ∧ (j : ℚ) / M < p ∧ p ≤ ((j : ℚ) + 1) / M := by
+  have hMq : (0 : ℚ) < M := by exact_mod_cast hM
+  have hpos : 0 < p * M := mul_pos h0 hMq
+  have hk1 : 0 < ⌈p * M⌉₊ := Nat.ceil_pos.mpr hpos
+  obtain ⟨j, hj⟩ := Nat.exists_eq_succ_of_ne_zero (Nat.pos_iff_ne_zero.mp hk1)
+  have hle : p * M ≤ (⌈p * M⌉₊ : ℚ) := Nat.le_ceil _
+  have hlt : (⌈p * M⌉₊ : ℚ) < p * M + 1 := Nat.ceil_lt_add_one (le_of_lt hpos)
+  have hkM : ⌈p * M⌉₊ ≤ M := Nat.ceil_le.mpr (by nlinarith)
+  rw [hj] at hle hlt hkM
+  push_cast at hle hlt
+  refine ⟨j, by omega, ?_, ?_⟩
+  · rw [div_lt_iff₀ hMq]; linarith
+  · rw [le_div_iff₀ hMq]; linarith
+
+/-- the level table is (within `ε`) `0.001 + 0.998·j/M`, `j = 0..M`, in non-decreasing order:
+what `np.linspace(0.001, 0.999, M+1)` produces; checked on every table by the harness and, for the
+tables `M+1 = 2..steps` of the source, decided in `levels_source_ok` -/
+structure LevelsOK (lv : List ℚ) (M : Nat) (ε : ℚ) : Prop where
+  len : lv.length = M + 1
+  sorted : lv.Pairwise (· ≤ ·)
+  close : ∀ (j : Nat) (x : ℚ), lv[j]? = some x → |x - (1 / 1000 + 998 / 1000 * j / M)| ≤ ε
+
+theorem stacking_none (g lo hi : List ℚ) :
+    stacking g lo hi none = stacking g lo hi (some (equalW lo.length)) := rfl
+
+/-- ★ condensation to `M` outer pieces (stacked with equal masses) contains the original p-box, for every grid
+of levels in `(0,1]` whose neighbours are at least `δ > 2(0.001+ε)` apart and every level table within `ε` of
+`0.001 + 0.998·j/M`. -/
+theorem condensation_contains (g : List ℚ) (n M : Nat) (δ ε : ℚ) (P C : PB) (lv : List ℚ)
+    (hg : C08.GridOK g) (hgn : g.length = n) (hgap : GridGap g δ) (hε : 0 ≤ ε) (hδ : 2 * (1 / 1000 + ε) < δ)
+    (hM : 0 < M) (hlv : LevelsOK lv M ε) (hP : C08.WF n P) (hC : condensation g P lv = .ok C) :
+    allLE C.left P.left = true ∧ allLE P.right C.right = true := by
+  have hδ0 : 0 ≤ δ := by linarith
+  have hMq : (0 : ℚ) < M := by exact_mod_cast hM
+  unfold condensation at hC
+  cases ho : outerDiscretisation g P lv with
+  | error e => simp [ho, bind, Except.bind] at hC
+  | ok o =>
+    simp only [ho, bind, Except.bind] at hC
+    obtain ⟨olen, ospec⟩ := outer_spec g P lv o M hlv.len ho
+    -- the j-th outer interval in terms of nearest indices
+    have oj : ∀ (j : Nat), j < M → ∃ k0 k1 a b l r, lv[j]? = some a ∧ lv[j + 1]? = some b ∧
+        findNearest g a = some k0 ∧ findNearest g b = some k1 ∧ P.left[k0]? = some l ∧ P.right[k1]? = some r ∧
+        P.right[k0]? ≠ none ∧ P.left[k1]? ≠ none ∧ o[j]? = some (l, r) := by
+      intro j hj
+      have h1 : j < lv.length := by rw [hlv.len]; omega
+      have h2 : j + 1 < lv.length := by rw [hlv.len]; omega
+      obtain ⟨c0, c1, e0, e1, hoj⟩ := ospec j lv[j] lv[j + 1] (by simp [h1]) (by simp [h2])
+      obtain ⟨k0, f0, l0, r0⟩ := cutRaw_spec g P _ c0 e0
+      obtain ⟨k1, f1, l1, r1⟩ := cutRaw_spec g P _ c1 e1
+      exact ⟨k0, k1, _, _, c0.1, c1.2, by simp [h1], by simp [h2], f0, f1, l0, r1, by simp [r0], by simp [l1], hoj⟩
+    have lo_get : ∀ (j : Nat) (x : ℚ), (o.map (·.1))[j]? = some x → ∃ k a, lv[j]? = some a ∧ findNearest g a = some k ∧ P.left[k]? = some x := by
+      intro j x hx
+      have hj : j < M := by
+        have := (List.getElem?_eq_some_iff.mp hx).1; simpa [olen] using this
+      obtain ⟨k0, k1, a, b, l, r, ha, hb, f0, f1, hl, hr, _, _, hoj⟩ := oj j hj
+      simp only [List.getElem?_map, hoj, Option.map_some, Option.some.injEq] at hx
+      subst hx
+      exact ⟨k0, a, ha, f0, hl⟩
+    have hi_get : ∀ (j : Nat) (x : ℚ), (o.map (·.2))[j]? = some x → ∃ k b, lv[j + 1]? = some b ∧ findNearest g b = some k ∧ P.right[k]? = some x := by
+      intro j x hx
+      have hj : j < M := by
+        have := (List.getElem?_eq_some_iff.mp hx).1; simpa [olen] using this
+      obtain ⟨k0, k1, a, b, l, r, ha, hb, f0, f1, hl, hr, _, _, hoj⟩ := oj j hj
+      simp only [List.getElem?_map, hoj, Option.map_some, Option.some.injEq] at hx
+      subst hx
+      exact ⟨k1, b, hb, f1, hr⟩
+    have lo_sorted : (o.map (·.1)).Pairwise (· ≤ ·) := by
+      apply pairwise_of_get
+      intro i j x y hij hx hy
+      obtain ⟨k, a, ha, fk, hl⟩ := lo_get i x hx
+      obtain ⟨k', a', ha', fk', hl'⟩ := lo_get j y hy
+      have := C08.pairwise_get lv hlv.sorted i j a a' hij ha ha'
+      exact sorted_get _ hP.lsorted k k' x y (nearest_monotone g hg.2 a a' this k k' fk fk') hl hl'
+    have hi_sorted : (o.map (·.2)).Pairwise (· ≤ ·) := by
+      apply pairwise_of_get
+      intro i j x y hij hx hy
+      obtain ⟨k, a, ha, fk, hl⟩ := hi_get i x hx
+      obtain ⟨k', a', ha', fk', hl'⟩ := hi_get j y hy
+      have := C08.pairwise_get lv hlv.sorted (i + 1) (j + 1) a a' (by omega) ha ha'
+      exact sorted_get _ hP.rsorted k k' x y (nearest_monotone g hg.2 a a' this k k' fk fk') hl hl'
+    have lo_hi : allLE (o.map (·.1)) (o.map (·.2)) = true := by
+      apply C08.allLE_of_get _ _ (by simp)
+      intro j x y hx hy
+      have hj : j < M := by
+        have := (List.getElem?_eq_some_iff.mp hx).1; simpa [olen] using this
+      obtain ⟨k0, k1, a, b, l, r, ha, hb, f0, f1, hl, hr, hr0, _, hoj⟩ := oj j hj
+      simp only [List.getElem?_map, hoj, Option.map_some, Option.some.injEq] at hx hy
+      subst hx; subst hy
+      obtain ⟨r0, hr0'⟩ := Option.ne_none_iff_exists'.mp hr0
+      have hab := C08.pairwise_get lv hlv.sorted j (j + 1) a b (by omega) ha hb
+      have hk := nearest_monotone g hg.2 a b hab k0 k1 f0 f1
+      have h1 : l ≤ r0 := C08.allLE_get hP.le hl hr0'
+      have h2 : r0 ≤ r := sorted_get _ hP.rsorted k0 k1 r0 r hk hr0' hr
+      linarith
+    have hlenlo : (o.map (·.1)).length = M := by simp [olen]
+    have hlenhi : (o.map (·.2)).length = M := by simp [olen]
+    obtain ⟨C', hC', cl, cr, cspec⟩ := C08.stacking_geninv g (o.map (·.1)) (o.map (·.2)) (equalW M)
+      (hlenlo.trans hlenhi.symm) (C08.validW_equal _ M hlenlo hM) lo_hi hg
+    rw [stacking_none, hlenlo, hC', Except.ok.injEq] at hC
+    subst hC
+    -- pointwise comparison
+    have point : ∀ (i : Nat) (p : ℚ), g[i]? = some p → ∃ cl cr pl pr, C'.left[i]? = some cl ∧ C'.right[i]? = some cr ∧
+        P.left[i]? = some pl ∧ P.right[i]? = some pr ∧ cl ≤ pl ∧ pr ≤ cr := by
+      intro i p hp
+      have hi : i < n := by rw [← hgn]; exact (List.getElem?_eq_some_iff.mp hp).1
+      have hpin := hg.1 p (List.mem_of_getElem? hp)
+      obtain ⟨j, hjM, b1, b2⟩ := band_exists p M hM hpin.1 hpin.2
+      obtain ⟨a, b, ha, hb, ga, gb⟩ := cspec i p hp
+      obtain ⟨k0, k1, x0, x1, l, r, hx0, hx1, f0, f1, hl, hr, _, _, hoj⟩ := oj j hjM
+      have hloj : (o.map (·.1))[j]? = some l := by simp [hoj]
+      have hhij : (o.map (·.2))[j]? = some r := by simp [hoj]
+      have e1 : a = l := ga.unique (C08.sorted_geninv _ M hlenlo lo_sorted j l p hloj b1 b2)
+      have e2 : b = r := gb.unique (C08.sorted_geninv _ M hlenhi hi_sorted j r p hhij b1 b2)
+      subst e1; subst e2
+      have c0 := abs_le.mp (hlv.close j x0 hx0)
+      have c1 := abs_le.mp (hlv.close (j + 1) x1 hx1)
+      have hjq : (j : ℚ) / M < p := b1
+      have hj0 : (0 : ℚ) ≤ (j : ℚ) / M := by positivity
+      have hj1 : ((j : ℚ) + 1) / M ≤ 1 := by
+        rw [div_le_one hMq]; exact_mod_cast hjM
+      have k0i : k0 ≤ i := by
+        apply nearest_le g δ (1 / 1000 + ε) hδ0 hgap (by linarith) hδ i k0 p x0 hp f0
+        have : (998 : ℚ) / 1000 * j / M = 998 / 1000 * ((j : ℚ) / M) := by ring
+        linarith [c0.2]
+      have ik1 : i ≤ k1 := by
+        apply nearest_ge g δ (1 / 1000 + ε) hδ0 hgap (by linarith) hδ i k1 p x1 hp f1
+        have : (998 : ℚ) / 1000 * ((j + 1 : ℕ) : ℚ) / M = 998 / 1000 * (((j : ℚ) + 1) / M) := by push_cast; ring
+        linarith [c1.1]
+      have hil : i < P.left.length := by rw [hP.llen]; exact hi
+      have hir : i < P.right.length := by rw [hP.rlen]; exact hi
+      refine ⟨a, b, P.left[i], P.right[i], ha, hb, by simp [hil], by simp [hir], ?_, ?_⟩
+      · exact sorted_get _ hP.lsorted k0 i a _ k0i hl (by simp [hil])
+      · exact sorted_get _ hP.rsorted i k1 _ b ik1 (by simp [hir]) hr
+    constructor
+    · apply C08.allLE_of_get _ _ (by rw [cl, hgn, hP.llen])
+      intro i x y hx hy
+      have hi : i < g.length := by rw [← cl]; exact (List.getElem?_eq_some_iff.mp hx).1
+      obtain ⟨c1, c2, p1, p2, h1, h2, h3, h4, h5, h6⟩ := point i g[i] (by simp [hi])
+      rw [hx] at h1; rw [hy] at h3
+      simp only [Option.some.injEq] at h1 h3; subst h1; subst h3; exact h5
+    · apply C08.allLE_of_get _ _ (by rw [cr, hgn, hP.rlen])
+      intro i x y hx hy
+      have hi : i < g.length := by rw [hgn, ← hP.rlen]; exact (List.getElem?_eq_some_iff.mp hx).1
+      obtain ⟨c1, c2, p1, p2, h1, h2, h3, h4, h5, h6⟩ := point i g[i] (by simp [hi])
+      rw [hx] at h4; rw [hy] at h2
+      simp only [Option.some.injEq] at h2 h4; subst h2; subst h4; exact h6
+
+/-! ### the grid and the level tables of the source satisfy the hypotheses (regenerated, decided on every build) -/
+
+def gapB (δ : ℚ) : List ℚ → Bool
+  | a :: b :: r => decide (a + δ ≤ b) && gapB δ (b :: r)
+  | _ => true
+
+theorem gapB_spec (δ : ℚ) (g : List ℚ) (h : gapB δ g = true) : GridGap g δ := by
+  induction g with
+  | nil => intro i a b ha; simp at ha
+  | cons x r ih =>
+    cases r with
+    | nil => intro i a b ha hb; simp at hb
+    | cons y r' =>
+      simp only [gapB, Bool.and_eq_true, decide_eq_true_eq] at h
+      intro i a b ha hb
+      cases i with
+      | zero => simp at ha hb; subst ha; subst hb; exact h.1
+      | succ i => exact ih h.2 i a b (by simpa using ha) (by simpa using hb)
+
+def closeB (M : Nat) (ε : ℚ) : List ℚ → Nat → Bool
+  | [], _ => true
+  | x :: r, j => decide (x - (1 / 1000 + 998 / 1000 * (j : ℚ) / M) ≤ ε ∧ (1 / 1000 + 998 / 1000 * (j : ℚ) / M) - x ≤ ε)
+      && closeB M ε r (j + 1)
+
+theorem closeB_spec (M : Nat) (ε : ℚ) (l : List ℚ) (k : Nat) (h : closeB M ε l k = true) :
+    ∀ (j : Nat) (x : ℚ), l[j]? = some x → |x - (1 / 1000 + 998 / 1000 * ((k + j : ℕ) : ℚ) / M)| ≤ ε := by
+  induction l generalizing k with
+  | nil => intro j x hx; simp at hx
+  | cons y r ih =>
+    simp only [closeB, Bool.and_eq_true, decide_eq_true_eq] at h
+    intro j x hx
+    cases j with
+    | zero =>
+      simp at hx; subst hx
+      rw [abs_le]; simp only [Nat.add_zero]; constructor <;> linarith [h.1.1, h.1.2]
+    | succ j =>
+      have := ih (k + 1) h.2 j x (by simpa using hx)
+      have e : k + 1 + j = k + (j + 1) := by omega
+      rw [e] at this; exact this
+
+def levelsB (lv : List ℚ) (M : Nat) (ε : ℚ) : Bool :=
+  decide (lv.length = M + 1) && sortedB lv && closeB M ε lv 0
+
+theorem levelsB_spec (lv : List ℚ) (M : Nat) (ε : ℚ) (h : levelsB lv M ε = true) : LevelsOK lv M ε := by
+  simp only [levelsB, Bool.and_eq_true, decide_eq_true_eq] at h
+  exact ⟨h.1.1, C08.pairwise_of_sortedB _ h.1.2, fun j x hx => by simpa using closeB_spec M ε lv 0 h.2 j x hx⟩
+
+def allLevelsB (ε : ℚ) : Bool :=
+  (List.range (Gen.steps - 1)).all fun i =>
+    match Gen.levelTable (i + 2) with
+    | some lv => levelsB lv (i + 1) ε
+    | none => false
+
+theorem allLevels_ok : allLevelsB (1 / 1000000000000) = true := by decide +kernel
+
+/-- every table `np.linspace(0.001, 0.999, m)`, `2 ≤ m ≤ steps`, is non-decreasing and within `10⁻¹²` of
+`0.001 + 0.998·j/(m-1)` -/
+theorem levels_source_ok (m : Nat) (h2 : 2 ≤ m) (hm : m ≤ Gen.steps) :
+    ∃ lv, Gen.levelTable m = some lv ∧ LevelsOK lv (m - 1) (1 / 1000000000000) := by
+  have h := allLevels_ok
+  simp only [allLevelsB, List.all_eq_true, List.mem_range] at h
+  have := h (m - 2) (by omega)
+  have e : m - 2 + 2 = m := by omega
+  rw [e] at this
+  cases ht : Gen.levelTable m with
+  | none => simp [ht] at this
+  | some lv =>
+    simp only [ht] at this
+    have e2 : m - 2 + 1 = m - 1 := by omega
+    rw [e2] at this
+    exact ⟨lv, rfl, levelsB_spec lv _ _ this⟩
+
+theorem pValues_gridGap : GridGap Gen.pValues (1 / 250) := gapB_spec _ _ (by decide +kernel)
+
+/-- ★ for the grid of the source and every piece count `m = 2..steps`: `condensation(m)` of a well-formed p-box
+contains it (left bound not above, right bound not below, at every step) -/
+theorem condensation_contains_source (m : Nat) (h2 : 2 ≤ m) (hm : m ≤ Gen.steps) (P C : PB) (lv : List ℚ)
+    (hP : C08.WF Gen.steps P) (hlv : Gen.levelTable m = some lv) (hC : condensation Gen.pValues P lv = .ok C) :
+    allLE C.left P.left = true ∧ allLE P.right C.right = true := by
+  obtain ⟨lv', h1, hok⟩ := levels_source_ok m h2 hm
+  rw [hlv, Option.some.injEq] at h1; subst h1
+  exact condensation_contains Gen.pValues Gen.steps (m - 1) (1 / 250) (1 / 1000000000000) P C lv
+    C08.pValues_gridOK C08.pValues_gridStep.1 pValues_gridGap (by norm_num) (by norm_num) (by omega) hok hP hC
 
 /-! ## non-vacuity: concrete instances of the hypotheses used above (grid `[1/4, 1/2, 3/4]`, three steps) -/
 
